@@ -30,8 +30,9 @@ type c19Case struct {
 	Price   int // 0 ratio 1, 1 gas coin cheap, 2 gas coin expensive
 	Dec     uint64
 	Powers  []int64
-	Origin  string // "hub" | "minter"
+	Origin  string // "hub" | "minter" | "mixed" (even transfers from Minter, odd ones from the hub)
 	Chain   string // ethereum | bsc
+	NoKey   int    // index of a validator without a Minter address (-1: all registered)
 }
 
 func c19Cases(tier string) []c19Case {
@@ -46,16 +47,27 @@ func c19Cases(tier string) []c19Case {
 				for pr := 0; pr < 3; pr++ {
 					for _, d := range []uint64{6, 18, 24} {
 						for _, pw := range [][]int64{{10, 10, 10}, {50, 30, 20}, {1, 1}, {7}} {
-							for _, or := range []string{"hub", "minter"} {
+							for _, or := range []string{"hub", "minter", "mixed"} {
+								if or == "mixed" && sz < 2 {
+									continue
+								}
 								ch := "ethereum"
 								if (sz+sp+fp+pr)%2 == 1 {
 									ch = "bsc"
 								}
-								out = append(out, c19Case{sz, sp, fp, pr, d, pw, or, ch})
+								out = append(out, c19Case{sz, sp, fp, pr, d, pw, or, ch, -1})
 							}
 						}
 					}
 				}
+			}
+		}
+	}
+	// a validator without a Minter address ranked before / between registered ones (unequal powers)
+	for _, pw := range [][]int64{{60, 30, 10}, {30, 60, 10}, {20, 30, 50}} {
+		for nk := 0; nk < 2; nk++ {
+			for _, d := range []uint64{6, 18} {
+				out = append(out, c19Case{2, 0, 1, 0, d, pw, "hub", "ethereum", nk})
 			}
 		}
 	}
@@ -85,6 +97,29 @@ func c19Run(in *hub.Instance, cs c19Case) (res c19Res) {
 	}
 	e30 := sdk.NewIntFromBigInt(pow10(30))
 	g := StdGenesis(vals, cs.Powers, users, sdk.NewCoins(sdk.NewCoin("hub", e30)))
+	origin := func(i int) string {
+		if cs.Origin == "mixed" {
+			if i%2 == 0 {
+				return "minter"
+			}
+			return "hub"
+		}
+		return cs.Origin
+	}
+	if cs.NoKey >= 0 {
+		for _, es := range g.Hub.ExternalStates {
+			if es.ChainId != "minter" {
+				continue
+			}
+			var keep []*mhubtypes.MsgDelegateKeys
+			for _, dk := range es.DelegateKeys {
+				if dk.ValidatorAddress != vals[cs.NoKey].Oper.String() {
+					keep = append(keep, dk)
+				}
+			}
+			es.DelegateKeys = keep
+		}
+	}
 	g.Hub.TokenInfos = &mhubtypes.TokenInfos{TokenInfos: []*mhubtypes.TokenInfo{
 		{Id: 1, Denom: "hub", ChainId: cs.Chain, ExternalTokenId: tokExt, ExternalDecimals: cs.Dec, Commission: sdk.NewDec(1).QuoInt64(100)},
 		{Id: 2, Denom: "hub", ChainId: "minter", ExternalTokenId: "1", ExternalDecimals: 18, Commission: sdk.NewDec(1).QuoInt64(100)},
@@ -127,7 +162,7 @@ func c19Run(in *hub.Instance, cs c19Case) (res c19Res) {
 	refundAddr := make([]string, cs.Size)
 	evNonce := uint64(0)
 	for i := 0; i < cs.Size; i++ {
-		if cs.Origin == "hub" {
+		if origin(i) == "hub" {
 			r := in.DeliverMsg(mhubtypes.NewMsgSendToExternal(mhubtypes.ChainID(cs.Chain), users[i], hub.HexAddr(fmt.Sprintf("rc%d", i)), sdk.NewCoin("hub", sdk.NewIntFromBigInt(amount)), sdk.NewCoin("hub", sdk.NewIntFromBigInt(fees[i]))))
 			if !r.OK() {
 				res.outcome = "setup-send-failed"
@@ -147,7 +182,7 @@ func c19Run(in *hub.Instance, cs c19Case) (res c19Res) {
 			}
 		}
 	}
-	if cs.Origin == "minter" {
+	if cs.Origin != "hub" {
 		if p := in.NextBlock(5); p != nil {
 			res.outcome = "block-failure"
 			return
@@ -239,7 +274,7 @@ func c19Run(in *hub.Instance, cs c19Case) (res c19Res) {
 	totalRef := new(big.Int)
 	refundGiven := map[int]*big.Int{}
 	for i := 0; i < cs.Size; i++ {
-		if cs.Origin != "minter" {
+		if origin(i) != "minter" {
 			continue
 		}
 		r := refunds[strings.ToLower(refundAddr[i])]
@@ -262,8 +297,10 @@ func c19Run(in *hub.Instance, cs c19Case) (res c19Res) {
 	// (3) commission payouts proportional to power, sum <= collected
 	sumCom := new(big.Int)
 	totStake := int64(0)
-	for _, p := range cs.Powers {
-		totStake += p
+	for i, p := range cs.Powers {
+		if i != cs.NoKey {
+			totStake += p // commission goes to the validators that have a Minter address
+		}
 	}
 	collected := toHub(totalComExt)
 	for i, v := range vals {
@@ -274,6 +311,9 @@ func c19Run(in *hub.Instance, cs c19Case) (res c19Res) {
 		sumCom.Add(sumCom, got)
 		// share of what is paid out in total (= collected, truncated)
 		want := new(big.Rat).Mul(collected, big.NewRat(cs.Powers[i], totStake))
+		if i == cs.NoKey {
+			want = new(big.Rat)
+		}
 		diff := new(big.Rat).Sub(new(big.Rat).SetInt(got), want)
 		tol := new(big.Rat).Add(big.NewRat(1, 1), new(big.Rat).Mul(collected, big.NewRat(int64(len(vals)), 1<<32)))
 		if diff.Sign() < 0 {
@@ -310,7 +350,7 @@ func c19Run(in *hub.Instance, cs c19Case) (res c19Res) {
 		keptExact := new(big.Rat).Sub(new(big.Rat).SetInt(feeExt[txhash[i]]), new(big.Rat).Quo(new(big.Rat).SetInt(given), toHub(big.NewInt(1))))
 		d := new(big.Rat).Sub(new(big.Rat).SetInt(f), keptExact)
 		if d.Sign() < 0 || d.Cmp(big.NewRat(1, 1)) >= 0 {
-			bad("fee_record_differs_from_fee_kept", "batchTxExecuted(TxFeeRecord)", "transfer %d (refund chain %s): fee paid %s external units, refunded %s hub units, so %s was kept, but the record reports %s", i, cs.Origin, feeExt[txhash[i]], given, keptExact.FloatString(3), f)
+			bad("fee_record_differs_from_fee_kept", "batchTxExecuted(TxFeeRecord)", "transfer %d (refund chain %s): fee paid %s external units, refunded %s hub units, so %s was kept, but the record reports %s", i, origin(i), feeExt[txhash[i]], given, keptExact.FloatString(3), f)
 		}
 	}
 	res.outcome = fmt.Sprintf("executed reimb>0:%v refunds:%v com>0:%v", reimb.Sign() > 0, totalRef.Sign() > 0, sumCom.Sign() > 0)
@@ -368,7 +408,7 @@ func init() {
 			}
 			out.Evidence = map[string]interface{}{"level": "exploration", "coverage": map[string]interface{}{
 				"evaluations": len(cases), "distinct_nontrivial": nontrivial,
-				"rule":        "Cartesian grid: batch size x fee spread {equal, one dominant, zeros mixed} x reported gas cost {0, small, 10^40} x price ratio {1, 1e-6, 1e6} x token decimals {6,18,24} x power split {[10,10,10],[50,30,20],[1,1],[7]} x origin {hub, minter}; chains ethereum/bsc alternate; every tuple is executed end to end on a fresh real instance (sends or cross-chain deposits, batch, voted execution event, EndBlocker); non-trivial = the execution event was applied",
+				"rule":        "Cartesian grid: batch size x fee spread {equal, one dominant, zeros mixed} x reported gas cost {0, small, 10^40} x price ratio {1, 1e-6, 1e6} x token decimals {6,18,24} x power split {[10,10,10],[50,30,20],[1,1],[7]} x origin {hub, minter, mixed within one batch}; plus power splits with one validator lacking a Minter address; chains ethereum/bsc alternate; every tuple is executed end to end on a fresh real instance (sends or cross-chain deposits, batch, voted execution event, EndBlocker); non-trivial = the execution event was applied",
 				"samples":     samples, "outcomes": outcomes, "exhaustive": true,
 			}, "assumptions": []string{"prices are installed through oracle genesis", "Minter token has 18 decimals, so Minter pool amounts are hub units", "proportionality tolerance: 1 unit + n*total/2^32 (the 32-bit normalisation of signer-set powers)"}}
 			out.Summary = fmt.Sprintf("cases=%d outcomes=%v violations=%d known=%d (%s)", len(cases), outcomes, len(out.Violations), len(out.Known), time.Since(start).Round(time.Millisecond))
